@@ -50,11 +50,14 @@ pub struct SysCfg {
     pub clock: ClockModel,
     pub clock_seed: u64,
     pub step_cap: u64,
+    /// the emulator's print-messages option (-m): messages are also printed to the console
+    #[serde(default)]
+    pub print_msgs: bool,
 }
 
 impl SysCfg {
     pub fn plain(step_cap: u64) -> Self {
-        SysCfg { wait_start: false, clock: ClockModel::Fast, clock_seed: 0, step_cap }
+        SysCfg { wait_start: false, clock: ClockModel::Fast, clock_seed: 0, step_cap, print_msgs: false }
     }
 }
 
@@ -285,7 +288,7 @@ pub fn run_sys<O: Observer + 'static>(
         Ok(())
     });
     let (clock, cstats) = SimClock::new(cfg.clock.clone(), cfg.clock_seed);
-    let outcome = sim.run(cb, Box::new(JumpClock { inner: clock, jump }), cfg.wait_start);
+    let outcome = sim.run_opt(cb, Box::new(JumpClock { inner: clock, jump }), cfg.wait_start, cfg.print_msgs);
     let mut shared = match Rc::try_unwrap(shared) {
         Ok(c) => c.into_inner(),
         Err(_) => panic!("harness: callback still alive after run()"),
